@@ -33,14 +33,14 @@ def gen_cases(ctx):
         # product initial states: bonds grow during the sweep, so stale environments cannot cancel
         cases.append({"kind": "notrunc", "par": par, "seed": rng.randrange(10 ** 9), "steps": 2, "bonds": [1],
                       "rich": True})
-    for _ in range(ctx.n(14, 200)):
+    for _ in range(ctx.n(40, 300)):
         kind = rng.choice([None, "spider", "chain", "star", "bush", "bush", "twig"])
         n = rng.choice([4, 5, 6]) if kind else rng.choice([2, 3, 4, 5])
         if kind == "twig":
             n = rng.choice([6, 7])
         cases.append({"kind": "notrunc", "par": gen.random_parent_array(rng, n, kind),
                       "seed": rng.randrange(10 ** 9), "steps": 3})
-    for _ in range(ctx.n(14, 200)):
+    for _ in range(ctx.n(50, 300)):
         kind = rng.choice([None, "spider", "chain"])
         n = rng.choice([3, 4, 5, 6]) if kind else rng.choice([2, 3, 4, 5])
         svd = dict(max_bond_dim=rng.choice([1, 2, 3, float("inf")]),
@@ -49,7 +49,7 @@ def gen_cases(ctx):
                    renorm=rng.random() < 0.3, sum_trunc=rng.random() < 0.3, sum_renorm=rng.random() < 0.5)
         cases.append({"kind": "trunc", "par": gen.random_parent_array(rng, n, kind),
                       "seed": rng.randrange(10 ** 9), "steps": 2, "svd": svd})
-    for _ in range(ctx.n(8, 80)):
+    for _ in range(ctx.n(30, 120)):
         cases.append({"kind": "twonode", "seed": rng.randrange(10 ** 9), "bond": rng.choice([1, 2, 3, 4]),
                       "d": rng.choice([(2, 2), (2, 3), (3, 2)]), "rootfirst": rng.random() < 0.5})
     return cases
